@@ -1002,8 +1002,12 @@ void case_apply(uint64_t case_no, vh::Rng&) {
 
 void at_end_apply() {
     vh::count("unjudged_events", g_unjudged_events);
-    if (g_unjudged_expected_mutable) vh::info(vh::fmt("not judged: functor with non-const call operator (mutable lambda taking const Way&): called %llu times for %llu ways offered", (unsigned long long)g_unjudged_seen_mutable, (unsigned long long)g_unjudged_expected_mutable));
-    if (g_unjudged_expected_itemfn) vh::info(vh::fmt("not judged: lambda taking const Item&: called %llu times for %llu items offered", (unsigned long long)g_unjudged_seen_itemfn, (unsigned long long)g_unjudged_expected_itemfn));
+    if (g_unjudged_expected_mutable) vh::info(g_unjudged_seen_mutable ? "not judged: functor with non-const call operator (mutable lambda taking const Way&) was called for ways"
+                                                                      : "not judged: functor with non-const call operator (mutable lambda taking const Way&) was never called for the ways offered");
+    if (g_unjudged_expected_itemfn) vh::info(g_unjudged_seen_itemfn ? "not judged: lambda taking const Item& was called"
+                                                                    : "not judged: lambda taking const Item& was never called for the items offered");
+    vh::count("info_item_lambda_items_offered", g_unjudged_expected_itemfn);
+    vh::count("info_item_lambda_calls", g_unjudged_seen_itemfn);
     vh::count("info_mutable_lambda_ways_offered", g_unjudged_expected_mutable);
     vh::count("info_mutable_lambda_calls", g_unjudged_seen_mutable);
 }
